@@ -27,9 +27,9 @@ FileMatch == \A g \in G : dev'[g] = Ln.file[g + 1]
 Logged == /\ SlotsMatch /\ FileMatch
           /\ res'.ret = Ln.ret /\ res'.hb = Ln.hb
           /\ (Dio \/ res'.ev = Modelled(Ln.ev))
-          /\ cfg'.nocache = (Ln.nocache = 1)
-          /\ (Dio \/ cfg'.align = Ln.align)
-          /\ (open' => bs' = Ln.bs)
+          /\ open' => /\ cfg'.nocache = (Ln.nocache = 1)
+                      /\ (Dio \/ cfg'.align = Ln.align)
+                      /\ bs' = Ln.bs
 
 CfgOf == [nocache |-> Ln.cfg[6] = 1, wt |-> Ln.cfg[1] = 1, bounce |-> Ln.cfg[2] = 1, handler |-> Ln.cfg[3] = 1, align |-> IF Dio THEN 4096 ELSE 0]
 Fresh == [g \in G |-> 1]
@@ -40,8 +40,8 @@ TReset == /\ IsEvent("reset") /\ Ln.a = NG
           /\ dev' = Fresh /\ logical' = Fresh /\ slot' = NoSlots /\ lru' = <<>> /\ bs' = InitBS /\ open' = TRUE
           /\ cfg' = CfgOf /\ unrep' = FALSE /\ res' = NoRes("open")
           /\ SlotsMatch /\ FileMatch /\ bs' = Ln.bs
-TOpen == /\ IsEvent("open") /\ Open(Ln.cfg[1] = 1, Ln.cfg[2] = 1, Ln.cfg[3] = 1, IF Dio THEN 4096 ELSE 0)
-         /\ SlotsMatch /\ FileMatch /\ bs' = Ln.bs /\ Ln.cfg[6] = 0
+TOpen == /\ IsEvent("open") /\ Open(Ln.cfg[1] = 1, Ln.cfg[2] = 1, Ln.cfg[3] = 1, IF Dio THEN 4096 ELSE 0, Ln.cfg[6] = 1)
+         /\ SlotsMatch /\ FileMatch /\ bs' = Ln.bs
 TRead == /\ IsEvent("read") /\ Read(Ln.a, Ln.b, FOf) /\ Logged
          /\ (Ln.ret = 0 => res'.data = Ln.data)
 TWrite == IsEvent("write") /\ Write(Ln.a, Ln.b, Ln.tags, FOf) /\ Logged
@@ -54,6 +54,7 @@ TBlksize == IsEvent("blksize") /\ SetBlksize(Ln.a, FOf) /\ Logged
 TCacheOff == IsEvent("cacheoff") /\ CacheOff(FOf) /\ Logged
 TCacheOn == IsEvent("cacheon") /\ CacheOn /\ Logged
 TReadahead == IsEvent("readahead") /\ UNCHANGED vars            \* posix_fadvise only
+TSkip == IsEvent("skip") /\ UNCHANGED vars                      \* the driver refused a request outside the backing file
 
 \* ---- calls on the undo_io wrapper: only what its caller sees
 ORng == IF Ln.e = "o_wbyte" THEN Ln.a..(Ln.a + Ln.b - 1) ELSE Rng(Ln.a, Ln.b)
@@ -70,8 +71,8 @@ TOOther == (IsEvent("o_blksize") \/ IsEvent("o_cacheoff") \/ IsEvent("o_cacheon"
 
 TraceInit == InitWith(Fresh) /\ l = 1
 TraceNext == TReset \/ TOpen \/ TRead \/ TWrite \/ TWByte \/ TZero \/ TDiscard \/ TFlush \/ TClose \/ TBlksize
-             \/ TCacheOff \/ TCacheOn \/ TReadahead \/ TORead \/ TOWrite \/ TOZero \/ TOFlush \/ TOOther
+             \/ TCacheOff \/ TCacheOn \/ TReadahead \/ TSkip \/ TORead \/ TOWrite \/ TOZero \/ TOFlush \/ TOOther
 TraceSpec == TraceInit /\ [][TraceNext]_tvars
 TraceAccepted == TLCGet("stats").diameter - 1 = Len(Tr)
-RefinesIo == [][IO!NextObs]_vars
+RefinesIo == [][IO!NextObs \/ (l <= Len(Tr) /\ Tr[l].e = "reset")]_vars      \* a reset line starts a new behaviour
 =============================================================================
